@@ -2,7 +2,7 @@
    The theorems are about ordering and gating in the model. PARTIAL: that OpenSSL actually encrypts, verifies the
    chain, or reports a missing close-notify as an error is runtime behaviour, observed by the correspondence
    (raw bytes ahead of the peer's TLS engine), not provable here. *)
-From LibFtp Require Import Bytes Decimal Reply Endpoint Ascii DataConn DataConn_Proofs Client Client_Proofs Login_Proofs Transfer_Proofs Transfer_More Tls_Failures Tls_Global Modes_Proofs Ctl_Proofs History_Proofs History2_Proofs Session_Proofs.
+From LibFtp Require Import Bytes Decimal Reply Endpoint Ascii DataConn DataConn_Proofs Client Client_Proofs Login_Proofs Transfer_Proofs Transfer_More Tls_Failures Tls_Global Data_Tls_Global Modes_Proofs Ctl_Proofs History_Proofs History2_Proofs Session_Proofs.
 Local Open Scope N_scope.
 
 (* every command line is written inside TLS exactly when the TLS layer of the control socket is up; between the
@@ -231,3 +231,24 @@ Theorem C11_clear_text_after_refused_connect_refuted :
   In (EWire false 2 (USER_ ++ [SP; 117%N])) (w_trace w) /\ In (EWire false 3 (PASS_ ++ [SP; 112%N])) (w_trace w).
 Proof. exact clear_text_after_refused_auth_refuted. Qed.
 Print Assumptions C11_clear_text_after_refused_connect_refuted.
+
+(* ------------------------------------------------------------------ the data connections: every call, state and server *)
+(* [okhs false tr]: in the events tr a call adds to the trace, every event that moves bytes on a data connection or touches
+   sink, source or callback ([EIo]) happens after a SUCCESSFUL TLS handshake on the data connection object created last
+   ([EData DNewObj] ... [EData (DHandshake _ true)]) - for EPSV, PASV, EPRT and PORT, downloads, uploads and listings,
+   whatever the server answers *)
+Theorem C11_data_payload_only_after_the_data_handshake : forall a w, c_tls (w_cfg w) = true ->
+  exists tr, w_trace (snd (step w a)) = w_trace w ++ tr /\ okhs false tr.
+Proof. exact step_data_inside_tls. Qed.
+Print Assumptions C11_data_payload_only_after_the_data_handshake.
+
+Theorem C11_payload_event_is_preceded_by_a_handshake : forall a w tr pre e post, c_tls (w_cfg w) = true ->
+  w_trace (snd (step w a)) = w_trace w ++ tr -> tr = pre ++ EIo e :: post -> hsafter false pre = true.
+Proof. exact payload_after_handshake. Qed.
+Print Assumptions C11_payload_event_is_preceded_by_a_handshake.
+
+Example C11_data_tls_example :
+  let w0 := init_world (mkConfig Passive true TBinary true false) data_tls_script in
+  let tr := w_trace (snd (steps w0 [AConnect [104%N] 21%N None; ADownload [102%N] None None])) in
+  okhs false tr /\ (0 < length (filter (fun e => match e with EIo (IoNetRead _) => true | _ => false end) tr))%nat.
+Proof. exact data_tls_example. Qed.
